@@ -118,6 +118,10 @@ def discover(job: dict) -> dict:
 def make_client(job: dict, d: dict, transport=None):
     cfgm = importlib.import_module((job.get("core") or job["pkg"] + ".core") + ".config")
     cfg = cfgm.ClientConfig(base_url="http://srv.test")
+    if transport is None and job.get("default_headers"):
+        # the bundled transport configured with default headers (one transport for the whole sequence of calls of this job)
+        tm = importlib.import_module((job.get("core") or job["pkg"] + ".core") + ".http_transport")
+        transport = tm.HttpxTransport(str(cfg.base_url), default_headers=dict(job["default_headers"]))
     return d["api"](cfg, transport) if transport is not None else d["api"](cfg)
 
 
